@@ -139,5 +139,125 @@ theorem C11_program (t : Transport) (w : World) (hw : WInv t w) (prog : List (Op
   have := (cfg_lt_128 x hx).1
   rw [hregs x]; simp [this]
 
+/-- what a run RECORDS it also WROTE: wherever the recorded configuration after the abstract run
+    differs from the one before, its new value is one of the recorded writes of the list -/
+theorem recorded_cw (acts : List Act) (hnr : NoReset acts) :
+    ∀ (c : Chip) (sh : Regs) (reads : List (List Byte)) (a : Nat),
+      (aexec c sh acts reads).2.1 a ≠ sh a → (⟨a, (aexec c sh acts reads).2.1 a⟩ : W) ∈ cw acts := by
+  induction acts with
+  | nil => intro c sh reads a h; exact absurd rfl h
+  | cons act rest ih =>
+    intro c sh reads a h
+    have h3 : NoReset rest := fun x v hm => hnr x v (by simp [hm])
+    cases act with
+    | rd x n => simp only [aexec, cw] at h ⊢; exact ih h3 _ _ _ a h
+    | delay ms => simp only [aexec, cw] at h ⊢; exact ih h3 _ _ _ a h
+    | wr x v e =>
+      cases e with
+      | reset => exact absurd (by simp) (hnr x v)
+      | none => simp only [aexec, cw, applyEff] at h ⊢; exact ih h3 _ _ _ a h
+      | commit =>
+        simp only [aexec, cw, applyEff] at h ⊢
+        by_cases hfin : (aexec (c.write x v) (sh.set x v) rest reads).2.1 a = (sh.set x v) a
+        · -- unchanged by the rest: then this very write changed it
+          have hax : a = x := by
+            apply Decidable.byContradiction
+            intro hne
+            apply h
+            rw [hfin]; simp [Regs.set, hne]
+          subst hax
+          rw [hfin]; simp [Regs.set]
+        · exact List.mem_cons_of_mem _ (ih h3 _ _ _ a hfin)
+
+/-- the recorded writes are among the acknowledged writes of the decoded journal -/
+theorem cw_sub_okWrites (acts : List Act) : ∀ w ∈ cw acts, w ∈ okWrites (acts.map Act.acc) := by
+  induction acts with
+  | nil => intro w hw; simp [cw] at hw
+  | cons act rest ih =>
+    intro w hw
+    cases act with
+    | rd x n => simp only [cw, List.map, Act.acc, okWrites] at hw ⊢; exact ih w hw
+    | delay ms => simp only [cw, List.map, Act.acc, okWrites] at hw ⊢; exact ih w hw
+    | wr x v e =>
+      cases e with
+      | commit =>
+        simp only [cw, List.map, Act.acc, okWrites, List.mem_cons] at hw ⊢
+        rcases hw with h | h
+        · exact Or.inl h
+        · exact Or.inr (ih w h)
+      | none => simp only [cw, List.map, Act.acc, okWrites, List.mem_cons] at hw ⊢; exact Or.inr (ih w hw)
+      | reset => simp only [cw, List.map, Act.acc, okWrites, List.mem_cons] at hw ⊢; exact Or.inr (ih w hw)
+
+/-- `P.Recorded` (judged on the crate under C12 / C13) for every builder request and the self
+    test, fault-free, over either transport: the journal decodes to the planned accesses
+    (`C12_exact` / `C13_exact`) and every recorded change is one of its acknowledged writes -/
+theorem C12_recorded (t : Transport) (w : World) (hw : WInv t w) (op : Op)
+    (hop : (∃ q, op = .config q) ∨ op = .selfTest) (hg : (op.plan w.shadow).guard = none) :
+    let r := runOp t noFaults w op
+    decode t r.1 = some ((op.plan w.shadow).acts.map Act.acc) ∧
+    P.Recorded w.shadow r.2.1.shadow (okWrites ((op.plan w.shadow).acts.map Act.acc)) := by
+  intro r
+  have hwf := plan_wf w.shadow op
+  have hnr : NoReset (op.plan w.shadow).acts := by
+    intro a v hm
+    rcases hop with ⟨q, rfl⟩ | rfl
+    · simp only [Op.plan] at hm
+      split at hm
+      · simp at hm
+      · simp [W.act] at hm
+    · simp [Op.plan, selfTestActs] at hm
+  have href := exec_refines t (op.plan w.shadow).acts hwf { w with idx := 0 } [] hw.2
+  have hdec : decode t (exec t noFaults { w with idx := 0 } (op.plan w.shadow).acts []).1 =
+      some ((op.plan w.shadow).acts.map Act.acc) := by
+    cases t with
+    | i2c dev => exact C12_exact dev _ hwf _ _
+    | spi => exact C13_exact _ hwf _ _
+  have hr : r = runOp t noFaults w op := rfl
+  simp only [runOp, hg] at hr
+  rcases hx : exec t noFaults { w with idx := 0 } (op.plan w.shadow).acts [] with ⟨j, w', res⟩
+  rw [hx] at href hr hdec
+  obtain ⟨_, r2, r3⟩ := href
+  cases res with
+  | error e => exact absurd r3 (by simp)
+  | ok reads =>
+    simp only at hr r2 hdec
+    rw [hr]
+    refine ⟨hdec, ?_⟩
+    intro a _ hne
+    simp only at hne ⊢
+    rw [r2] at hne ⊢
+    exact cw_sub_okWrites _ _ (recorded_cw _ hnr w.chip w.shadow [] a hne)
+
+/-- C16, the whole sentence: construct a driver, run ANY history of calls in which any data
+    operations fail (each call with its own schedule), then make a fault-free configuration
+    request that the builder accepts: it returns Ok and the device holds exactly what was
+    requested (`P.C01`, `P.C02`) - no needed write is skipped; and `get_data()` uses the range
+    the device really has -/
+theorem C16_recovery (dev : Nat) (chip : Chip) (c : Ctor) (h : List (Op × (Nat → Bool)))
+    (hreset : ∀ x ∈ DS.cfgAddrs, chip.regs x = DS.resetVal x) (hcs : chip.csHigh = true)
+    (hd : DataFaultsOnly (c.transport dev) (runCtor dev noFaults chip c).2.1 h)
+    (q : Request) (ws : List W) :
+    let t := c.transport dev
+    let w := runHistory t (runCtor dev noFaults chip c).2.1 h
+    q.script w.shadow = .ok ws →
+      (runOp t noFaults w (.config q)).2.2 = .ok "" ∧
+      P.C01 q w.chip.regs (runOp t noFaults w (.config q)).2.1.chip.regs ∧
+      P.C02 q w.chip.regs (runOp t noFaults w (.config q)).2.1.chip.regs ∧
+      (runOp t noFaults w .getData).2.2 = .ok (expectScaled w.chip.regs (w.chip.burst 4 6)) := by
+  intro t w hs
+  have hw : WInv t w := reachable dev chip c h hreset hcs hd
+  obtain ⟨a, b, c', _⟩ := config_reachable t w hw q ws hs
+  exact ⟨a, b, c', (data_reachable t w hw).1⟩
+
+/-- C20 for histories: after any history of calls over SPI in which only data operations fail,
+    chip-select is high and the chip is in SPI mode - the next access starts cleanly -/
+theorem C20_history (dev : Nat) (chip : Chip) (c : Ctor) (h : List (Op × (Nat → Bool)))
+    (hreset : ∀ x ∈ DS.cfgAddrs, chip.regs x = DS.resetVal x) (hcs : chip.csHigh = true)
+    (ht : c.transport dev = .spi)
+    (hd : DataFaultsOnly (c.transport dev) (runCtor dev noFaults chip c).2.1 h) :
+    (runHistory (c.transport dev) (runCtor dev noFaults chip c).2.1 h).chip.csHigh = true ∧
+    (runHistory (c.transport dev) (runCtor dev noFaults chip c).2.1 h).chip.spiMode = true :=
+  (reachable dev chip c h hreset hcs hd).2 ht
+
 end Thm
 end Bma400
